@@ -5,7 +5,7 @@ open RedunModel RedunModel.FileSys RedunModel.FileOps
 
 /- One request per line, state threaded through.
    (init (<path>*))                  universe of file paths, resets the state          -> ok
-   (new <val>) (hash i) (update i) (valid i) (write i b<hex> t) (append i b<hex> t) (remove i) (touch i t)
+   (new <val>) (hash i) (update i) (valid i) (write i b<hex> t) (append i b<hex> t) (open i s<mode> b<hex> t) (remove i) (touch i t)
    (copy i j T|F t) (stage i j t) (unstage i j t) (mkdir i) (rmdir i) (dcopy i j T|F t) (dstage i j t)
    (dunstage i j t) (xwrite <path> b<hex> t) (xremove <path>)                          -> ok|skipped|T|F|<H>|!Err|bad-op
    (dump)                                                                              -> ((<cached|N> <fresh>)*)
@@ -19,6 +19,8 @@ def pOp : Sexp → Option Op
   | .list [.atom "valid", i] => do pure (.isValid (← pNat i))
   | .list [.atom "write", i, b, t] => do pure (.write (← pNat i) (← pBytes b) (← pInt t))
   | .list [.atom "append", i, b, t] => do pure (.append (← pNat i) (← pBytes b) (← pInt t))
+  | .list [.atom "open", i, .atom m, b, t] => do
+    pure (.openMode (← pNat i) ((← strOfAtom m).toList) (← pBytes b) (← pInt t))
   | .list [.atom "remove", i] => do pure (.remove (← pNat i))
   | .list [.atom "touch", i, t] => do pure (.touch (← pNat i) (← pInt t))
   | .list [.atom "copy", i, j, s, t] => do pure (.copyTo (← pNat i) (← pNat j) (← pBool s) (← pInt t))
@@ -41,6 +43,8 @@ def rOut : Out → String
   | .h h => rH h
   | .err .fileNotFound => "!FileNotFoundError"
   | .err .sameFile => "!SameFileError"
+  | .err .redunNotFound => "!RedunFileNotFoundError"
+  | .err .redunOS => "!RedunOSError"
   | .bad => "bad-op"
 
 def dump (U : List Path) (s : St) : String :=
